@@ -221,6 +221,7 @@ class Exec:
         if isinstance(e, ast.UnaryOp):
             v = s.eval(e.operand, env)
             if isinstance(e.op, ast.USub):
+                if isinstance(v, (int, float)) and not isinstance(v, bool): return -v
                 return Vec([-lift(x) for x in v.xs]) if isinstance(v, Vec) else -lift(v)
             if isinstance(e.op, ast.Not): return bnot(s.truth(v))
             raise NotImplementedError
